@@ -91,7 +91,8 @@ def curated():
         svc(0x1880, [ch(0x2A80, "bound", 40, ["notify"]), ch(0x2A81, "bound", 40, enc="req"), ch(0x2A82, "bound_const", 8),
                      ch(0x2A83, "hb_rw", 40, ["indicate"]), ch(0x2A84, "h_w", 10), ch(0x2A85, "h_r", 10, ["notify"]),
                      ch(0x2A86, "bound", 4, ["no_write"]), ch(0x2A87, "bound", 4, ["no_read", "notify"]),
-                     ch(0x2A88, "fixed8", fixed=0x42), ch(0x2A89, "m_rw", 16)]),
+                     ch(0x2A88, "fixed8", fixed=0x42), ch(0x2A89, "m_rw", 16), ch(0x2A8A, "hb_rw", 12, ["no_read", "notify"]),
+                     ch(0x2A8B, "h_r", 6, ["no_read", "indicate"])]),
     ], mtu=23, wq=255, cccd_cb=True))
     # 9. long values with large MTU
     D.append(decl("long_values_247", [
